@@ -42,3 +42,40 @@ def rule(F, rep, rid="C04.R7"):
                           "local, argument, array item or field no longer fails the way it does in place"
                           % (sorted(res), v, v), fn.loc)
     rep.floor(R, n, 20, "ir::Expr kinds")
+
+
+def rule_strict_flag(F, rep, rid="C04.R8"):
+    """Which arguments a call forces is a property of the call expression, not of where it stands."""
+    from . import prov
+    R = rep.rule(rid, "the `tailstrict` mark of a call reaches the evaluator as written: the flag stored in ir::Expr::Call is the "
+                 "flag of the ast call on every path of the analyzer — a flag that is also conditioned on the syntactic position "
+                 "makes `f(e) tailstrict` force `e` in one place and not in another, so naming the call with a local (or "
+                 "putting it in an array) changes which errors surface")
+    n = 0
+    for fn in F.fn_list:
+        if fn.body is None or "rsjsonnet_lang::program::analyze" not in fn.q:
+            continue
+        body = fn.body
+        P = None
+        for bi, blk in enumerate(body.blocks):
+            if blk["cleanup"]:
+                continue
+            for st in blk["s"]:
+                if st["k"] == "assign" and st["rv"]["k"] == "agg" and st["rv"].get("adt") == IREXPR and st["rv"].get("v") == "Call" \
+                        and "tailstrict" in st["rv"].get("fn", []):
+                    x = st["rv"]["xs"][st["rv"]["fn"].index("tailstrict")]
+                    P = P or prov.Prov(F, body)
+                    rep.fn(fn)
+                    o = P.origins_op(x) if x.get("k") != "const" else {("const", x.get("v"))}
+                    consts = sorted(str(c[1]) for c in o if c and c[0] == "const")
+                    from_ast = any(c and c[0] == "field" and str(c[1]).endswith("ast::Expr") for c in o)
+                    n += 1
+                    ok = from_ast and not consts
+                    rep.ob(R, "%s|Call.tailstrict" % fn.q, ok, {"origins": sorted(map(str, o))})
+                    if not ok:
+                        rep.violation(R, "%s|Call.tailstrict|position-dependent" % fn.q,
+                                      "the analyzer stores `tailstrict` in ir::Expr::Call from %s: besides the flag written in the "
+                                      "source, a constant is stored on some path (the flag is dropped where a tail call is not "
+                                      "possible), so the same call forces its arguments or not depending on its position"
+                                      % sorted(map(str, o)), fn.loc)
+    rep.floor(R, n, 1, "constructions of ir::Expr::Call")
